@@ -150,7 +150,8 @@ def export_to_csv(
                 value = tracks.get_node_attr(node_id, feature_name)
                 cols = column_map[feature_name]
                 if isinstance(cols, list):
-                    assert isinstance(value, (list, tuple))
+                    # multi-value features may be stored as list, tuple or numpy array
+                    assert isinstance(value, (list, tuple, np.ndarray))
                     for col, v in zip(cols, value, strict=True):
                         row[col] = convert_numpy_to_python(v)
                 else:
